@@ -7,7 +7,9 @@
 (* tombstones, SeekTo (equal: no-op; ahead: a bounded number of naive      *)
 (* Next steps, then a restart from max(seek, start); behind or exhausted:  *)
 (* restart), and optimize() choosing the single-segment fast path or       *)
-(* handing out the lower-level iterator itself.                            *)
+(* handing out the lower-level iterator itself; the iterator options       *)
+(* IncludeDeletions (deletion entries of the segments are visited as well) *)
+(* and SkipLowerLevel (in-memory segments only).                           *)
 (*                                                                         *)
 (* Keys are 1..N.  Bounds and seek targets live on the doubled domain      *)
 (* 1..2N+1 (even 2k = key k, odd = a gap between keys); 0 is a nil start,  *)
@@ -16,6 +18,8 @@
 EXTENDS Integers, Sequences, FiniteSets, TLC, Json
 
 CONSTANTS N, MaxSegs, WithLL, MaxTries, MaxCalls,
+          IncDelSet,    \* SUBSET BOOLEAN: values of IteratorOptions.IncludeDeletions explored
+          SkipLLSet,    \* SUBSET BOOLEAN: values of IteratorOptions.SkipLowerLevel explored
           Devs      \* named deviations of the code from the intended design
 
 Keys == 1..N
@@ -27,22 +31,28 @@ VARIABLES
     segs,       \* Seq of [Keys -> {"none","set","del"}], oldest first
     ll,         \* SUBSET Keys: keys the lower level holds
     sb, eb,     \* start / end bound on the doubled domain (0 / 2N+2 = nil)
+    incDel,     \* IteratorOptions.IncludeDeletions: deletion entries of the segments are visited too (value nil)
+    skipLL,     \* IteratorOptions.SkipLowerLevel: the lower level is not consulted
     kind,       \* "heap" | "single" | "ll" | "none": which iterator the code hands out
     sidx,       \* the segment of the single-segment iterator (0 otherwise)
     cur,        \* [0..MaxSegs -> Keys \cup {Done}]: where each cursor sits (0 = lower level)
     calls,      \* number of program steps so far
     hist
 
-vars == <<segs, ll, sb, eb, kind, sidx, cur, calls, hist>>
-view == <<segs, ll, sb, eb, kind, sidx, cur, calls>>
+vars == <<segs, ll, sb, eb, incDel, skipLL, kind, sidx, cur, calls, hist>>
+view == <<segs, ll, sb, eb, incDel, skipLL, kind, sidx, cur, calls>>
+
+LLKeys == IF skipLL THEN {} ELSE ll
 
 -----------------------------------------------------------------------------
 (* Reference semantics *)
 NewestOp(k) == IF \E i \in 1..Len(segs) : segs[i][k] # "none"
                THEN LET i == CHOOSE j \in 1..Len(segs) : segs[j][k] # "none" /\ \A j2 \in (j + 1)..Len(segs) : segs[j2][k] = "none"
                     IN [op |-> segs[i][k], src |-> i]
-               ELSE IF k \in ll THEN [op |-> "set", src |-> 0] ELSE [op |-> "none", src |-> 0]
-Live(k) == NewestOp(k).op = "set"
+               ELSE IF k \in LLKeys THEN [op |-> "set", src |-> 0] ELSE [op |-> "none", src |-> 0]
+\* what the iteration visits: live keys, and with IncludeDeletions also the keys whose newest
+\* operation in the segments is a deletion (whatever the lower level holds)
+Live(k) == NewestOp(k).op = "set" \/ (incDel /\ NewestOp(k).op = "del")
 InRange(k) == sb <= Pos(k) /\ Pos(k) < eb
 RefFirstFrom(p) ==      \* smallest live in-range key at doubled position >= p, else Done
     IF \E k \in Keys : Live(k) /\ InRange(k) /\ Pos(k) >= p
@@ -51,7 +61,7 @@ RefFirstFrom(p) ==      \* smallest live in-range key at doubled position >= p, 
 
 -----------------------------------------------------------------------------
 (* Implementation-shaped iterator *)
-Has(i, k) == IF i = 0 THEN k \in ll ELSE segs[i][k] # "none"
+Has(i, k) == IF i = 0 THEN k \in LLKeys ELSE segs[i][k] # "none"
 OpAt(i, k) == IF i = 0 THEN "set" ELSE segs[i][k]
 
 \* segment.Cursor / findStartKeyInclusivePos: first key of cursor i at doubled position >= p inside the window
@@ -67,7 +77,7 @@ Top(c) == CHOOSE i \in Cursors(c) : \A j \in Cursors(c) : c[i] < c[j] \/ (c[i] =
 
 StartCursors(p) ==      \* startIterator(seekToKey = p, end)
     [i \in 0..MaxSegs |->
-        IF i = 0 THEN (IF WithLL THEN FirstIn(0, p) ELSE Done)
+        IF i = 0 THEN (IF WithLL /\ ~skipLL THEN FirstIn(0, p) ELSE Done)
         ELSE IF i <= Len(segs) THEN FirstIn(i, p) ELSE Done]
 
 \* iterator.Next (iterator.go:229-287)
@@ -79,18 +89,18 @@ HeapNextLoop(c, lastK) ==
          IN IF Cursors(c2) = {} THEN c2
             ELSE LET t2 == Top(c2) IN
                  IF c2[t2] # lastK
-                 THEN (IF OpAt(t2, c2[t2]) = "del" THEN HeapNextLoop(c2, c2[t2]) ELSE c2)
+                 THEN (IF OpAt(t2, c2[t2]) = "del" /\ ~incDel THEN HeapNextLoop(c2, c2[t2]) ELSE c2)
                  ELSE HeapNextLoop(c2, lastK)
 HeapNext(c) == IF Cursors(c) = {} THEN c ELSE HeapNextLoop(c, c[Top(c)])
 
 \* startIterator's "skip a leading deletion"
 StartHeap(p) ==
     LET c == StartCursors(p) IN
-    IF Cursors(c) # {} /\ OpAt(Top(c), c[Top(c)]) = "del" THEN HeapNext(c) ELSE c
+    IF Cursors(c) # {} /\ OpAt(Top(c), c[Top(c)]) = "del" /\ ~incDel THEN HeapNext(c) ELSE c
 
 \* iteratorSingle.Next (iterator_single.go:54-72): one segment cursor, skip deletions
 RECURSIVE SingleSkip(_, _)
-SingleSkip(i, k) == IF k = Done THEN Done ELSE IF OpAt(i, k) = "del" THEN SingleSkip(i, FirstIn(i, Pos(k) + 1)) ELSE k
+SingleSkip(i, k) == IF k = Done THEN Done ELSE IF OpAt(i, k) = "del" /\ ~incDel THEN SingleSkip(i, FirstIn(i, Pos(k) + 1)) ELSE k
 SingleNext(c) == LET i == Top(c) IN [c EXCEPT ![i] = SingleSkip(i, FirstIn(i, Pos(c[i]) + 1))]
 
 CurKey(c) == IF Cursors(c) = {} THEN Done ELSE c[Top(c)]
@@ -132,12 +142,14 @@ KindOf(c) ==
     ELSE IF ~("OptimizeAfterSkip" \in Devs) /\ Cardinality(Cursors(StartCursors(sb))) # 1 THEN "heap"
     ELSE IF Top(c) = 0 THEN "ll" ELSE "single"
 
-Ret(c) == [done |-> CurKey(c) = Done, k |-> IF CurKey(c) = Done THEN 0 ELSE CurKey(c), src |-> CurSrc(c)]
+Ret(c) == [done |-> CurKey(c) = Done, k |-> IF CurKey(c) = Done THEN 0 ELSE CurKey(c), src |-> CurSrc(c),
+           del |-> (CurKey(c) # Done /\ OpAt(CurSrc(c), CurKey(c)) = "del")]
 
 Init ==
     /\ segs \in Shapes
     /\ ll \in (IF WithLL THEN SUBSET Keys ELSE {{}})
     /\ sb \in 0..(2 * N + 1) /\ eb \in 1..(2 * N + 2)
+    /\ incDel \in IncDelSet /\ skipLL \in SkipLLSet
     /\ kind = "none" /\ sidx = 0
     /\ cur = [i \in 0..MaxSegs |-> Done]
     /\ calls = 0
@@ -152,7 +164,8 @@ RefPosH(h, n) ==
            [] e.call = "Next" -> (IF RefFirstFrom(prev) = Done THEN 2 * N + 2 ELSE Pos(RefFirstFrom(prev)) + 1)
            [] e.call = "SeekTo" -> (IF e.arg >= sb THEN e.arg ELSE sb)
 RefRet(h) == LET k == RefFirstFrom(RefPosH(h, Len(h))) IN
-             [done |-> k = Done, k |-> IF k = Done THEN 0 ELSE k, src |-> IF k = Done THEN 0 ELSE NewestOp(k).src]
+             [done |-> k = Done, k |-> IF k = Done THEN 0 ELSE k, src |-> IF k = Done THEN 0 ELSE NewestOp(k).src,
+              del |-> (k # Done /\ NewestOp(k).op = "del")]
 
 Log(call, arg, c, ret) ==
     LET e == [call |-> call, arg |-> arg, ret |-> ret, cur |-> Ret(c), kind |-> kind'] IN
@@ -164,9 +177,9 @@ Start ==
        /\ cur' = c
        /\ kind' = KindOf(c)
        /\ sidx' = IF KindOf(c) = "single" THEN Top(c) ELSE 0
-       /\ Log("Start", [segs |-> segs, ll |-> [k \in Keys |-> k \in ll], sb |-> sb, eb |-> eb], c, "ok")
+       /\ Log("Start", [segs |-> segs, ll |-> [k \in Keys |-> k \in ll], sb |-> sb, eb |-> eb, incDel |-> incDel, skipLL |-> skipLL], c, "ok")
     /\ calls' = 0
-    /\ UNCHANGED <<segs, ll, sb, eb>>
+    /\ UNCHANGED <<segs, ll, sb, eb, incDel, skipLL>>
 
 Started == kind \in {"heap", "single", "ll"}
 
@@ -174,7 +187,7 @@ DoNext ==
     /\ Started /\ calls < MaxCalls
     /\ LET c == NextOf(cur) IN
        /\ cur' = c
-       /\ UNCHANGED <<segs, ll, sb, eb, kind, sidx>>
+       /\ UNCHANGED <<segs, ll, sb, eb, incDel, skipLL, kind, sidx>>
        /\ Log("Next", 0, c, IF CurKey(cur) = Done \/ CurKey(c) = Done THEN "done" ELSE "ok")
     /\ calls' = calls + 1
 
@@ -182,7 +195,7 @@ DoSeek(x) ==
     /\ Started /\ calls < MaxCalls
     /\ LET r == SeekResult(cur, x) IN
        /\ cur' = r[1]
-       /\ UNCHANGED <<segs, ll, sb, eb, kind, sidx>>
+       /\ UNCHANGED <<segs, ll, sb, eb, incDel, skipLL, kind, sidx>>
        /\ Log("SeekTo", x, r[1], r[2])
     /\ calls' = calls + 1
 
